@@ -8,7 +8,9 @@ From Coq Require Import String List ZArith NArith Bool.
 Import ListNotations.
 From OV Require Import Base.Bytes Base.Tree Gen.Conv Model.Value Model.XPathFrag Model.Decl Model.Eval.
 From OV Require Import Proofs.Value Proofs.ValuePrint Proofs.ValueOrder Proofs.Validate Proofs.ValidateWf Proofs.EvalPure Proofs.EvalCache
-     Proofs.EvalSpec Proofs.ValidateSpec Proofs.EvalFull Proofs.EvalOrder Proofs.EvalCorners Proofs.EvalExamples.
+     Proofs.EvalSpec Proofs.ValidateSpec Proofs.EvalFull Proofs.EvalOrder Proofs.EvalCorners Proofs.EvalShape Proofs.ValueDec
+     Proofs.ValidateNoDup Proofs.EvalExamples.
+From OV Require Import Gen.EvalShape.
 
 Section C02.
   Variable root : tree.
@@ -84,21 +86,22 @@ Proof. exact normalize_laws. Qed.
 Theorem validate_terminates : forall ds fexists pexists, validate ds fexists pexists <> VFuel.
 Proof. exact validate_terminates. Qed.
 
-(* The tree-level half of eval_matches_spec (kept; the full theorem is eval_matches_spec below):
-   the uncached evaluation of a validated tree equals the documented evaluation (spec_tf: D2
+(* The tree-level half of eval_matches_spec (the full theorem is eval_matches_spec below): the
+   uncached evaluation of ANY tree of the shape wf_b equals the documented evaluation (spec_tf: D2
    anchoring, D3 composition / argument passing, D4 a single normalisation) of the declarations
-   the tree stands for (erase top).  Its two printing hypotheses are theorems now
-   (print_int_trim, print_flt_trim). *)
-Theorem eval_matches_spec_partial :
+   the tree stands for (erase top).  (Formerly eval_matches_spec_partial, with two printing
+   hypotheses that are theorems now.) *)
+Theorem eval_matches_spec_tree :
   forall root query ext fsigs fcall pcall,
   (forall x p ps, valid root p -> query x p = Some ps -> Forall (valid root) ps) ->
-  (forall z, trim_space (Z_to_dec z) = Z_to_dec z) ->
-  (forall f, trim_space (fmt_float f) = fmt_float f) ->
   forall top, wf_b true top = true -> funcs_ok fsigs top ->
   forall p, valid root p ->
   eval_nocache root query ext fsigs fcall pcall top p
   = to_res (spec_tf root query ext fsigs fcall pcall (erase top) false p).
-Proof. exact eval_matches_spec_tree. Qed.
+Proof.
+  intros root query ext fsigs fcall pcall Hq.
+  exact (eval_matches_spec_tree root query ext fsigs fcall pcall Hq print_int_trim print_flt_trim).
+Qed.
 
 (* With array children sorted by fqdn string (validateArray before the F3 repair) the documented
    order is lost for >= 10 children. *)
@@ -240,3 +243,53 @@ Theorem double_validation_old_refuted :
     Some (run_nocache doc_abab top []) = run_spec doc_abab ds_f28 [] /\
     Some (run_nocache doc_abab (legacy_double_validation top) []) <> run_spec doc_abab ds_f28 [].
 Proof. exact f28_double_validation_differs. Qed.
+
+(* ---- ties to the source (Gen/EvalShape.v is regenerated from /repo on every run) ------------------ *)
+(* normalizeAndSaveValue and its checkToSave closure, read statement by statement off value.go,
+   compute exactly the closed forms all normalisation theorems are proved about. *)
+Theorem normalize_matches_source :
+  (forall nt keep rt v, normalize_src nt keep rt v = normalize nt keep rt v) /\
+  (forall keep v, run_cts check_to_save_steps keep v = check_to_save keep v) /\
+  incl [EkString; EkSlice; EkMap] empty_kinds.
+Proof. split; [exact normalize_src_eq|split; [exact check_to_save_src|exact empty_kinds_cover]]. Qed.
+
+(* xpathQueryNeeded (Model.Eval.needed) is the conjunction of the extracted conjuncts;
+   the transform cache key, the order of validateDecl's steps, which children lists are sorted by
+   what, and the nil -> zero value / AssignableTo handling of arguments are the ones the model
+   transcribes. *)
+Theorem source_shape :
+  (forall i x, needed i x = forallb (needed_atom_holds i x) needed_atoms) /\
+  needed_atoms = [NaNotFinalOutput; NaXPathSet; NaParentNotArray] /\
+  cache_key_parts = [KpNodeID; KpDeclHash; KpXPathQueryNeeded] /\
+  validate_steps = [VsNilCheck; VsValidateXPath; VsSetFqdn; VsResolveKind; VsKindSwitch; VsComputeHash; VsReturn] /\
+  object_children_sort = SkFqdnAscending /\ array_children_sort = SkNone /\ func_args_sort = SkNone /\
+  arg_nil_is_zero = true /\ arg_type_check = AcAssignableOrError /\
+  normalize_return_pinned = true.
+Proof. split; [exact needed_src|exact source_shape]. Qed.
+
+(* validateObject sorts by the FULL fqdn string; among the children of one parent that is the
+   order of the last (escaped) namelet, which is what Model.Decl.sort_kids compares. *)
+Theorem sibling_fqdn_order : forall parent a b,
+  bytes_ltb (build_fqdn parent a) (build_fqdn parent b) = bytes_ltb a b.
+Proof. exact sibling_fqdn_order. Qed.
+
+(* The F28 class: validate never hands one declaration to a parent twice.  In every node of the
+   validated tree the children have pairwise different fqdns (object members: distinct escaped
+   names; array elements elem[i] and arguments arg[i]: distinct positions - decimal printing is
+   injective). *)
+Theorem validate_no_duplicate_children : forall ds fexists pexists,
+  (forall name body, lookup name ds = Some body -> decl_nodup body = true) ->
+  forall top, validate ds fexists pexists = VOk top ->
+  forall d, In d (subdecls top) -> NoDup (kid_fqdns d).
+Proof. exact validate_no_duplicate_children. Qed.
+
+Theorem decimal_printing_injective : forall a b, N_to_dec a = N_to_dec b -> a = b.
+Proof. exact N_to_dec_inj. Qed.
+
+(* the hypotheses of the validate theorems are satisfiable: the F28 witness declarations *)
+Example ds_f28_nodup : forall name body, lookup name ds_f28 = Some body -> decl_nodup body = true.
+Proof.
+  intros name body H. unfold ds_f28 in H. cbn [lookup] in H.
+  destruct (bytes_eqb name FINAL_OUTPUT); [injection H as <-; vm_compute; reflexivity|].
+  destruct (bytes_eqb name (bs "t")); [injection H as <-; vm_compute; reflexivity|discriminate].
+Qed.
